@@ -1906,7 +1906,8 @@ class MatlabWrapper(CheckMixin, FormatMixin):
         modules = {}
         for file in files:
             with open(file, "r", encoding="UTF-8") as f:
-                content += f.read()
+                # the end of a file ends its last line (and token)
+                content += f.read() + "\n"
 
         # Parse the contents of the interface file
         parsed_result = parser.Module.parseString(content)
